@@ -242,7 +242,7 @@ func runInterpT(p Program, timeout time.Duration) Result {
 	case r := <-done:
 		r.Err = "hang (interrupted after " + timeout.String() + ")"
 		return r // keeps the partial trace: it shows where the program was looping
-	case <-time.After(10 * time.Second):
+	case <-time.After(120 * time.Second): // generous: on an overloaded machine the poll of the interrupt flag can be seconds away
 	}
 	poisoned.Store(true)
 	return Result{Err: "hang (not interruptible)", Trace: rec.Take()}
@@ -819,6 +819,9 @@ func ReplayerWith(cfg Config) vlib.Replayer {
 			return vlib.Inconclusive("oracle: " + err.Error())
 		}
 		got := cfg.runInterp(p)
+		if strings.HasPrefix(got.Err, "not run:") {
+			return vlib.Inconclusive(got.Err)
+		}
 		if !got.Equal(w) {
 			return fmt.Errorf("interpreter and compiled Go disagree\n%s", Diff(got, w))
 		}
@@ -841,6 +844,9 @@ func Replayer(known func(p Program, interp, oracle Result) string) vlib.Replayer
 			return vlib.Inconclusive("oracle: " + err.Error())
 		}
 		got := RunInterp(p)
+		if strings.HasPrefix(got.Err, "not run:") {
+			return vlib.Inconclusive(got.Err)
+		}
 		if !got.Equal(w) {
 			return fmt.Errorf("interpreter and compiled Go disagree\n%s", Diff(got, w))
 		}
